@@ -477,6 +477,47 @@ func cmdCheck(args []string) int {
 				ro := native.runRace(run.Pkg, c.vec)
 				detail = "race-detector: " + ro.Status
 				confirmed = ro.Status == "race"
+				// the first candidate did not race: try the other candidates of this
+				// label that differ in some harness choice (at most eight)
+				// (greedy order: next the candidate with the most choices not tried yet)
+				tried := map[[2]uint64]bool{}
+				note := func(v *interp.Vector) {
+					for i, k := range v.Kinds {
+						if k == "choose" || k == "bool" {
+							tried[[2]uint64{uint64(i), v.Values[i]}] = true
+						}
+					}
+				}
+				note(c.vec)
+				alts := append([]*interp.Vector{}, rr.AltViolations[c.label]...)
+				for round := 0; round < 16 && !confirmed && len(alts) > 0; round++ {
+					best, bestN := -1, 0
+					for ai, alt := range alts {
+						n := 0
+						for i, k := range alt.Kinds {
+							if (k == "choose" || k == "bool") && !tried[[2]uint64{uint64(i), alt.Values[i]}] {
+								n++
+							}
+						}
+						if n > bestN {
+							best, bestN = ai, n
+						}
+					}
+					if best < 0 {
+						break
+					}
+					alt := alts[best]
+					alts = append(alts[:best], alts[best+1:]...)
+					note(alt)
+					ra := native.runRace(run.Pkg, alt)
+					if ra.Status == "race" {
+						confirmed = true
+						c.vec = alt
+						data, _ := json.MarshalIndent(c.vec, "", " ")
+						os.WriteFile(path, data, 0o644)
+						detail = fmt.Sprintf("race-detector: race (candidate %d tried for this label)", round+2)
+					}
+				}
 				if !confirmed {
 					detail += " | " + clipS(ro.Output, 300)
 				}
